@@ -203,12 +203,36 @@ pub fn handle(op: &str, a: &[&str]) -> Option<Resp> {
                     None => fail = Some("well-formed document rejected by the strict reader".to_string()),
                     Some(d) => fail = check_content(d, &docspec::content(&ls)),
                 }
-            } else {
-                let raws = ls.iter().filter(|l| matches!(l, Line::Raw(_))).count();
-                let mut others = ls.clone();
-                others.retain(|l| !matches!(l, Line::Raw(_)));
-                if raws == 1 && docspec::wf_ignoring_raw(&ls) && docspec::raw_positions_ok(&ls) && strict.is_some() {
-                    fail = Some("document with a corrupted line accepted by the strict reader".to_string());
+            } else if let Some(lines) = docspec::text_lines(&ls, *fnl == "1") {
+                // documents with raw lines (corrupted lines, lenient lines): the line-level lenient
+                // grammar of the strict reader decides rejection / acceptance and the content. The
+                // rejection side is as wide as C03_reject_replace / C03_reject_insert (a BadLine at
+                // any position, any suffix).
+                let pfs = deb822_lossless::Paragraph::from_str(&text);
+                match (docspec::lenient(&lines), &strict) {
+                    (None, Some(_)) => fail = Some("document with a corrupted line accepted by the strict reader".to_string()),
+                    (None, None) => {
+                        if pfs.is_ok() {
+                            fail = Some("document with a corrupted line accepted by Paragraph::from_str".to_string());
+                        }
+                    }
+                    (Some(_), None) => fail = Some("document of the lenient line grammar rejected by the strict reader".to_string()),
+                    (Some(c), Some(d)) => {
+                        fail = check_content(d, &c);
+                        if fail.is_none() {
+                            // Paragraph::from_str on the text itself (check_content reads the printed document)
+                            match (pfs, c.first()) {
+                                (Ok(p), Some(e)) => {
+                                    if &p.items().collect::<Vec<_>>() != e {
+                                        fail = Some("Paragraph::from_str is not the first paragraph".to_string());
+                                    }
+                                }
+                                (Err(_), None) => {}
+                                (Ok(_), None) => fail = Some("Paragraph::from_str returned a paragraph for a document without paragraphs".to_string()),
+                                (Err(_), Some(_)) => fail = Some("Paragraph::from_str failed on a document of the lenient line grammar".to_string()),
+                            }
+                        }
+                    }
                 }
             }
             Some(Resp::with(format!("{} {} wf={}", es(&text), view, ebool(docspec::wf(&ls))), fail))
@@ -592,6 +616,55 @@ pub fn generate_c03(tier: &str, seed: u64, out: &mut Out) {
             }
         }
     }
+    // raw lines at EVERY position (replacing line i, inserted before line i, appended) of a sample
+    // of the small documents above: the lenient lines (white-space-only lines, blanks before the
+    // colon), every BadLine (C03_reject_replace / C03_reject_insert: any position, any suffix, also
+    // directly before continuation lines) and two orphan continuation lines. Oracle: docspec::lenient.
+    let mut bases: Vec<Vec<Line>> = vec![];
+    for (j, p) in paras.iter().enumerate() {
+        if j % 7 != 3 {
+            continue;
+        }
+        let mut ls = pre[j % pre.len()].clone();
+        ls.extend(p.iter().cloned());
+        ls.extend(post[(j / 7) % post.len()].iter().cloned());
+        bases.push(ls);
+    }
+    for (j, s) in sep.iter().enumerate() {
+        let mut ls = paras[5 + 11 * j].clone();
+        ls.extend(s.iter().cloned());
+        ls.extend(paras[2 + 13 * j].iter().cloned());
+        bases.push(ls);
+    }
+    let sweep = |raw: &str, fnls: &[&str], out: &mut Out| {
+        for ls in &bases {
+            for i in 0..=ls.len() {
+                let mut variants = vec![];
+                if i < ls.len() {
+                    let mut r = ls.clone();
+                    r[i] = Line::Raw(raw.to_string());
+                    variants.push(r);
+                }
+                let mut r = ls.clone();
+                r.insert(i, Line::Raw(raw.to_string()));
+                variants.push(r);
+                for v in &variants {
+                    for fnl in fnls {
+                        out.req("deb.doc", &[docspec::enc_lines(v), fnl.to_string()]);
+                    }
+                }
+            }
+        }
+    };
+    for raw in docspec::LENIENT_LINES.iter() {
+        sweep(raw, &["1", "0"], out);
+    }
+    for raw in docspec::BAD_LINES.iter() {
+        sweep(raw, &["1"], out);
+    }
+    for raw in [docspec::ORPHAN_LINES[0], docspec::ORPHAN_LINES[4], " #x"] {
+        sweep(raw, &["1"], out);
+    }
     // volume: large well-formed documents, and the same with one corrupt line near the end
     for ls in large_line_docs() {
         emit(&ls, out);
@@ -616,6 +689,19 @@ pub fn generate_c03(tier: &str, seed: u64, out: &mut Out) {
                 bad.insert(i, b);
             }
             out.req("deb.doc", &[docspec::enc_lines(&bad), fnl.to_string()]);
+        }
+        // a lenient line (white-space-only, blanks before the colon) replacing or inserted before a
+        // random line, or appended
+        if rng.chance(5) {
+            let mut len = ls.clone();
+            let i = rng.below(len.len() + 1);
+            let b = Line::Raw(rng.pick(&docspec::LENIENT_LINES).to_string());
+            if i < len.len() && rng.chance(50) {
+                len[i] = b;
+            } else {
+                len.insert(i, b);
+            }
+            out.req("deb.doc", &[docspec::enc_lines(&len), fnl.to_string()]);
         }
         // an orphan continuation line (indentation + text with nothing to continue) as the first line
         // of the document or directly after a blank line
